@@ -41,3 +41,19 @@ def query(patterns):
 
 def info(pattern):
     return query([pattern])[pattern]
+
+
+def matches(pattern, texts):
+    """is_match of the program's regex literal on each text (same regex crate version as the program)"""
+    ensure_tool()
+    out = []
+    texts = list(texts)
+    for i in range(0, len(texts), 2000):
+        chunk = texts[i:i + 2000]
+        line = "M\t" + json.dumps(pattern) + "".join("\t" + json.dumps(t) for t in chunk) + "\n"
+        r = subprocess.run([TOOL], input=line, capture_output=True, text=True)
+        d = json.loads(r.stdout.splitlines()[0])
+        if "m" not in d:
+            raise RuntimeError("refacts match mode: %s" % d)
+        out.extend(d["m"])
+    return out
